@@ -89,6 +89,9 @@ func genESLStream(rng *rand.Rand, maxLists int) (stream []byte, class string, en
 				dl = 1 + rng.Intn(40)
 			}
 			cnt := rng.Intn(5)
+			if dl < 64 && rng.Intn(30) == 0 {
+				cnt = 1000 + rng.Intn(1200)
+			}
 			l.SigSize = uint32(16 + dl)
 			for c := 0; c < cnt; c++ {
 				d := make([]byte, dl)
@@ -99,6 +102,9 @@ func genESLStream(rng *rand.Rand, maxLists int) (stream []byte, class string, en
 		case k < 8:
 			l.Type = refesl.SHA256Type
 			cnt := rng.Intn(17)
+			if rng.Intn(40) == 0 { // long lists (firmware dbx holds hundreds to thousands of hashes)
+				cnt = []int{255, 256, 1023, 1024, 1025, 2049, 4100}[rng.Intn(7)]
+			}
 			l.SigSize = 48
 			for c := 0; c < cnt; c++ {
 				d := make([]byte, 32)
